@@ -33,6 +33,8 @@ CHECKS = {
             "mutants that could only exhaust resources are dropped and counted; UTF-8 text only"),
     "C17": ("fault/@print injection at known lines and depths; M-tax on Error.path/line and M-print (evaluations recorded at the real directive handler vs deliveries to the user handler)",
             "finalize-time errors carry no line by design: only their path is checked"),
+    "C09": ("unique-id constants make every resolution observable; R-resolve reference on generated dependency graphs, read_namespace vs read_files in random target orders, 10 injected error shapes",
+            "R-resolve restates the resolution rule of the property"),
 }
 
 NOT_YET = {
